@@ -60,7 +60,7 @@ fn measure(root: &Path, c: &Case, n: usize) -> Result<(BTreeMap<String, u64>, Ve
             script_rng(false, 1);
             for i in 0..n {
                 let k = fill_key(i);
-                let op = Op { kind: if i % 2 == 0 { OpKind::Set } else { OpKind::Put }, key: k.clone(), val: Val::new(&k.name, 1, i as u32, 17), pop: Pop::Value, nosy: false };
+                let op = Op { kind: if i % 2 == 0 { OpKind::Set } else { OpKind::Put }, key: k.clone(), val: Val::new(&k.name, 1, i as u32, 17), pop: Pop::Value, nosy: false, link_from: None };
                 let (ret, _) = exec(root, &handle, &op);
                 if ret.is_err() {
                     return Err(format!("populating failed: {}", ret.short()));
@@ -101,7 +101,7 @@ fn measure(root: &Path, c: &Case, n: usize) -> Result<(BTreeMap<String, u64>, Ve
         4 | 5 => OpKind::Set,
         _ => OpKind::Put,
     };
-    let op = Op { kind, key: target.clone(), val: Val::new("target", 3, 1, 17), pop: Pop::Value, nosy: false };
+    let op = Op { kind, key: target.clone(), val: Val::new("target", 3, 1, 17), pop: Pop::Value, nosy: false , link_from: None};
     let (r, ev) = traced(&world, || {
         script_rng(false, 1);
         exec(root, &handle, &op).0
